@@ -159,6 +159,24 @@ def replay_case(ctx, kinds, key_kind, chain_ix, variant=0):
             if verify(key_kind, pk, raw, b'\x02' + p2 + forged):
                 ok = False
                 ctx.mismatch('C23:%s:consensus-signature-not-bound-to-chain' % key_kind, 'signature verifies for chain id %s too' % p2.hex(), case)
+    if consensus:
+        # an explicit chain id of the group wins over what the context remembers (a context bound to one chain, a group made for another)
+        from pytezos.context.impl import ExecutionContext
+        from pytezos.operation.group import OperationGroup
+        p3 = CHAIN_PAYLOADS[(chain_ix + 1) % len(CHAIN_PAYLOADS)]
+        if p3 != payload:
+            cx = ExecutionContext(shell=filled.context.shell, key=key, chain_id=chain_id)
+            try:
+                other = OperationGroup(context=cx, contents=[dict(c) for c in filled.contents], protocol=filled.protocol, chain_id=b58check(bytes([87, 82, 0]), p3), branch=filled.branch).sign()
+                _, oraw = decode_signature(other.signature)
+                oforged = bytes.fromhex(other.forge())
+                if not verify(key_kind, pk, oraw, b'\x02' + p3 + oforged):
+                    ok = False
+                    ctx.mismatch('C23:%s:consensus:explicit-chain-id-ignored' % key_kind, 'a group made for chain %s in a context bound to chain %s: the signature does not verify over 0x02 || %s || forged%s' % (
+                        p3.hex(), payload.hex(), p3.hex(), ' (it verifies for the context\'s chain)' if verify(key_kind, pk, oraw, b'\x02' + payload + oforged) else ''), case)
+            except Exception as e:   # noqa
+                ok = False
+                ctx.mismatch('C23:consensus:explicit-chain-id:raises', 'signing a consensus group with an explicit chain id raised %s: %s' % (type(e).__name__, str(e)[:200]), case)
     # group hash
     want_hash = b58check(bytes([5, 116]), blake2b32(forged + raw))
     got_hash = signed.hash()
